@@ -2,6 +2,7 @@ package govc
 
 import (
 	"fmt"
+	"go/ast"
 	"go/token"
 	"go/types"
 	"strings"
@@ -359,6 +360,16 @@ func (fr *Frame) describeValue(v ssa.Value) string {
 		st := v.X.Type().Underlying().(*types.Struct)
 		return st.Field(v.Field).Name()
 	case *ssa.Extract:
+		// the source-level name of the variable the component was assigned to, if any
+		for _, b := range fr.fn.Blocks {
+			for _, in := range b.Instrs {
+				if d, ok := in.(*ssa.DebugRef); ok && d.X == v && !d.IsAddr {
+					if id, ok := d.Expr.(*ast.Ident); ok {
+						return id.Name
+					}
+				}
+			}
+		}
 		return "extract"
 	case *ssa.Phi:
 		return v.Comment
